@@ -112,13 +112,21 @@ Fixpoint rxrun_strict (rec : bool) (s : xstate) (sched : list ev) : option (xsta
   end.
 
 (* several requests through one chain / one server *)
-Definition rcstep (rec : bool) (c : comp) (e : ev) : option (comp * ares) :=
+(* [recw]: is the RecoverHandler INSIDE the timeout middleware (then wrapped requests recover in the
+   handler goroutine); [recx]: is there one at all (an unwrapped request always has it around its
+   handler).  Which of the two orders the engine builds is an OBSERVATION of the tree. *)
+Definition rcstep (recw recx : bool) (c : comp) (e : ev) : option (comp * ares) :=
   match c with
-  | CW s => match rstep rec s e with Some (s', r) => Some (CW s', r) | None => None end
-  | CX s => match rxstep rec s e with Some (s', r) => Some (CX s', r) | None => None end
+  | CW s => match rstep recw s e with Some (s', r) => Some (CW s', r) | None => None end
+  | CX s => match rxstep recx s e with Some (s', r) => Some (CX s', r) | None => None end
   end.
 
-Fixpoint rcmrun_strict (rec : bool) (cs : list comp) (sched : list mev)
+(* the RecoverHandler IN FRONT of the timeout middleware: the panic the middleware re-raised is
+   answered on the real writer, in the serving goroutine *)
+Definition apply_reply (w : rwriter) : rwriter :=
+  fold_left (fun w a => fst (rw_act w a)) recover_script w.
+
+Fixpoint rcmrun_strict (recw recx : bool) (cs : list comp) (sched : list mev)
   : option (list comp * list (nat * ares)) :=
   match sched with
   | [] => Some (cs, [])
@@ -126,10 +134,10 @@ Fixpoint rcmrun_strict (rec : bool) (cs : list comp) (sched : list mev)
     match nth_error cs i with
     | None => None
     | Some c =>
-      match rcstep rec c e with
+      match rcstep recw recx c e with
       | None => None
       | Some (c', o) =>
-        match rcmrun_strict rec (upd_nth i (fun _ => c') cs) r with
+        match rcmrun_strict recw recx (upd_nth i (fun _ => c') cs) r with
         | None => None
         | Some (cs', os) => Some (cs', match e with EH => (i, o) :: os | _ => os end)
         end
